@@ -157,6 +157,9 @@ func c10MutationsAt(n descNode) []string {
 			muts = append(muts, "bound:negative", "bound:huge")
 		case "multipliers":
 			muts = append(muts, "multipliers:zero", "multipliers:negative")
+		case "name_short_singular", "name_short_plural", "name_long_singular", "name_long_plural":
+			// unit names are free text that ends up in a regular expression
+			muts = append(muts, "unitname:(", "unitname:k(B", "unitname:*", "unitname:[x", "unitname:\\", "unitname:", "unitname:a|b")
 		}
 	}
 	return muts
@@ -359,6 +362,8 @@ func c10Apply(root any, idx int, mut string, r *wk.Rand) (string, bool) {
 		setNode(n, int64(-5))
 	case "bound:huge":
 		setNode(n, uint64(1)<<63)
+	case "unitname:(", "unitname:k(B", "unitname:*", "unitname:[x", "unitname:\\", "unitname:", "unitname:a|b":
+		setNode(n, mut[len("unitname:"):])
 	case "multipliers:zero":
 		if m, is := n.val.(map[any]any); is {
 			for _, v := range m {
@@ -434,11 +439,16 @@ func c10Exercise(c *wk.Ctx, what string, t schema.Serializable, inputs []any, wi
 func c10Inputs(r *wk.Rand, shape *gen.Shape) []any {
 	env := &gen.Env{}
 	ins := []any{map[string]any{}, nil, "scalar", int64(3), []any{}, map[any]any{"a": int64(1)}}
+	var extraFirst []any
 	for i := 0; i < 3; i++ {
 		if raw, ok := gen.ValidRaw(r, shape, env, 0); ok {
 			ins = append(ins, raw)
 			pv, _ := gen.Perturb(r, gen.CopyRaw(raw))
 			ins = append(ins, pv)
+			if i == 0 {
+				// every number as text: the form that reaches the unit parsers
+				extraFirst = append(extraFirst, gen.StringifyNumbers(gen.CopyRaw(raw)))
+			}
 		}
 	}
 	for i := 0; i < 3; i++ {
@@ -454,7 +464,7 @@ func c10Inputs(r *wk.Rand, shape *gen.Shape) []any {
 			}
 		}
 	}
-	return append(extra, ins...)
+	return append(append(extraFirst, extra...), ins...)
 }
 
 // traceC10 (VERIF_TRACE=1, for replays) prints every mutant before it is tried, so that a fatal crash can be
